@@ -563,8 +563,64 @@ def no_hidden_state(chk, repo, pid):
                f'{how} on the module-level / memoised object `{name}`: later calls see what earlier calls left there, '
                f'so the result is not a function of the arguments alone', loc)
     chk.ob(clause, 'E4-module-state', '+'.join(mods), 'no hidden state', not bad, f'{n} functions scanned', '')
+    lazy_attribute_rule(chk, repo, clause, mods)
     no_tolerance_shortcut(chk, repo, pid)
     return eff
+
+
+LAZY_CALLS = ('map', 'filter', 'zip', 'iter', 'reversed', 'enumerate')
+
+
+def lazy_attribute_rule(chk, repo, clause, mods):
+    """No one-shot iterator is kept on an object: `self._slice = map(f, mask)` (or a helper that returns `map(...)` whose
+    result is stored) is walked once - the first use of the object exhausts it and every later use sees an empty sequence,
+    so what the object does depends on how often it has been used."""
+    def lazy(node, names=()):
+        if isinstance(node, ast.GeneratorExp):
+            return True
+        if isinstance(node, ast.Call) and isinstance(node.func, ast.Name) and node.func.id in LAZY_CALLS:
+            return True
+        if isinstance(node, ast.Call) and (dotted(node.func) or '').startswith('itertools.'):
+            return True
+        return isinstance(node, ast.Name) and node.id in names
+
+    def lazy_names(fn):
+        # locals that hold a lazy value on some path and are never re-bound to something else by list()/tuple()
+        out = set()
+        for n_ in ast.walk(fn.node):
+            if isinstance(n_, ast.Assign) and len(n_.targets) == 1 and isinstance(n_.targets[0], ast.Name) and lazy(n_.value):
+                out.add(n_.targets[0].id)
+        return out
+    lazy_funcs = {}
+    for fn in repo.all_functions():
+        names = lazy_names(fn)
+        for n_ in ast.walk(fn.node):
+            if isinstance(n_, ast.Return) and n_.value is not None and lazy(n_.value, names):
+                lazy_funcs[fn.key] = fn.loc(n_)
+    bad, n = [], 0
+    for fn in repo.all_functions():
+        if fn.module.name not in mods:
+            continue
+        names = lazy_names(fn)
+        for n_ in ast.walk(fn.node):
+            if not (isinstance(n_, ast.Assign) and any(isinstance(t, ast.Attribute) for t in n_.targets)):
+                continue
+            n += 1
+            v = n_.value
+            how = None
+            if lazy(v, names):
+                how = f'`{seg(fn, v)[:50]}`'
+            elif isinstance(v, ast.Call):
+                d = dotted(v.func)
+                tgt = repo.resolve_name(fn.module, d) if d else None
+                key = getattr(tgt, 'key', None)
+                if key in lazy_funcs:
+                    how = f'the result of {key}, which returns an iterator at {lazy_funcs[key]}'
+            if how:
+                bad.append(f'{fn.key} stores {how} at {fn.loc(n_)}')
+    chk.ob(clause, 'E4-lazy-state', '+'.join(mods), 'no one-shot iterator is stored on an object',
+           not bad, ('; '.join(sorted(set(bad))[:2]) + ': the first traversal exhausts it, the next use of the object '
+                                     'sees nothing') if bad else f'{n} attribute store(s)', '')
 
 
 def no_tolerance_shortcut(chk, repo, pid):
